@@ -52,7 +52,7 @@ man = {
     ],
     "checks": checks,
     "not_applicable": na,
-    "notes": "Twelve genuine defects were repaired by unguarded fix: commits in /repo (see known_findings.json, DESIGN.md section 8).",
+    "notes": "Fifteen genuine defects were repaired by unguarded fix: commits in /repo (see known_findings.json, DESIGN.md sections 8 and 12.3).",
 }
 json.dump(man, open(os.path.join(ROOT, "MANIFEST.json"), "w"), indent=1)
 print(f"{len(checks)} checks, {len(na)} not yet claimed")
